@@ -385,3 +385,76 @@ def ob_two_steps_same_waiter_id(it: int, wa: int, wa2: int, wb: int, swap: bool)
         return False
     want = "a:timeout,b:timeout+timeout" if swap else "a:timeout+timeout,b:timeout"
     return obs["status"] == "completed" and obs["result"] == want and obs["aborts"] == 0
+
+
+
+# ----------------------------------------------------------------------------------------------- restart of a run that HAD BEEN idle and is working again
+from vlib.h_restart import run_first_recording as _run_first_recording, run_restarted_from_writes as _run_restarted_from_writes, ticks_in as _ticks_in  # noqa: E402
+from vlib.h_stores import TmpDir as _TmpDir14  # noqa: E402
+
+
+def _wait_then_work_wf(w: int, z: int):
+    class WaitWork(Workflow):
+        @step
+        async def s0(self, ctx: Context, ev: StartEvent) -> StopEvent:
+            try:
+                await ctx.wait_for_event(Resp, waiter_id="w", timeout=w)
+                return StopEvent(result="answered")
+            except asyncio.TimeoutError:
+                await asyncio.sleep(z)          # the step goes on working after its wait timed out
+                return StopEvent(result="timeout")
+
+    return WaitWork(timeout=None)
+
+
+_FIRST14: dict = {}
+
+
+def _first14(w: int, z: int):
+    if (w, z) not in _FIRST14:
+        _FIRST14[(w, z)] = native(_run_first_recording, lambda: _wait_then_work_wf(w, z), 1000, w + z + 8)
+    return _FIRST14[(w, z)]
+
+
+def _after_the_timeout_tick(w: int, z: int) -> int:
+    """number of store writes of the first life up to and including the persisted TickWaiterTimeout (crashes before it are the class of KF-C14-2)"""
+    writes = _first14(w, z)["writes"]
+    for i, wr in enumerate(writes):
+        if wr[0] == "tick" and wr[2].get("type") == "waiter_timeout":
+            return i + 1
+    return len(writes) + 1
+
+
+@obligation(quick=240, thorough=600, partitions_quick=["sq", "not sq"], partitions_thorough=[f"sq == {s} and w == {w}" for s in (True, False) for w in (1, 2)],
+            what="a run that was announced idle (parked in a wait: the handler row got its idle stamp), then woke up BY ITSELF (its wait timed out: "
+                 "stamp cleared, the timeout tick persisted) and was working when the process stopped: on restart it is resumed like any "
+                 "running handler and completes — whether the rows live in the memory store or in a SQLite database (same rows written "
+                 "through the real store, upserts included)",
+            bounds={"wait timeout w": "1..2", "work after the timeout z": "1..2", "crash": "after any store write from the persisted timeout tick on, before the run ended",
+                    "store at restart": "memory / SQLite"})
+def ob_restart_after_self_wakeup(w: int, z: int, k: int, sq: bool) -> bool:
+    """
+    pre: 1 <= w <= 2 and 1 <= z <= 2 and 0 <= k <= 6
+    post: _
+    """
+    w, z, k = conc(w, 1, 2), conc(z, 1, 2), conc(k, 0, 6)
+    sq = concb(sq)
+    first = _first14(w, z)
+    if first["status"] != "completed" or first["result"] != "timeout":
+        return False
+    writes = first["writes"]
+    cut = native(_after_the_timeout_tick, w, z) + k
+    # only crashes BEFORE the run ended (a prefix that holds the final step result is finalised, not resumed: C13)
+    ticks = native(_ticks_in, writes[:cut])
+    if cut > len(writes) or any(t.get("type") == "step_result" and any(r.get("type") == "result" for r in t.get("result", [])) for t in ticks):
+        return True
+    if sq:
+        with _TmpDir14() as d:
+            import os
+
+            again = _run_restarted_from_writes(lambda: _wait_then_work_wf(w, z), writes[:cut], horizon=w + z + 8, sqlite_path=os.path.join(d, "s.db"))
+    else:
+        again = _run_restarted_from_writes(lambda: _wait_then_work_wf(w, z), writes[:cut], horizon=w + z + 8)
+    if again["errors"] or again["loop_exceptions"]:
+        return False
+    return again["status"] == "completed" and again["result"] == "timeout"
